@@ -556,6 +556,23 @@ class Prov:
 
     def st_For(self, node, st, fr):
         it, adopted = self.iter_value(node.iter, st, fr)
+        if adopted is None and isinstance(it, tuple) and it and it[0] in ("tuple", "list") and 0 < len(it[1]) <= 8 \
+                and all(is_const(x) for x in it[1]) and not node.orelse \
+                and not any(isinstance(n, ast.Break) for sub in node.body for n in ast.walk(sub)):
+            # a loop over a literal table of constants is interpreted once per entry (exact: no abstraction of the element)
+            for item in it[1]:
+                if st.dead:
+                    break
+                self.assign(node.target, item, st, fr, node)
+                depth = len(st.ctx)
+                for sub_stmt in node.body:
+                    if st.dead:
+                        break
+                    self.stmt(sub_stmt, st, fr)
+                if st.dead == "continue":
+                    st.dead = None
+                    del st.ctx[depth:]
+            return
         if adopted is not None:
             L, elem = adopted
         else:
@@ -566,6 +583,8 @@ class Prov:
             for n in ast.walk(sub):
                 if isinstance(n, ast.Name) and isinstance(n.ctx, ast.Store):
                     assigned.add(n.id)
+
+        own_carried = dict(L.carried)  # an adopted generator loop already carries the generator's own variables
 
         def run_body(head):
             body = head.copy()
@@ -580,7 +599,7 @@ class Prov:
             self.block(node.body, body, fr)
             if body.dead in ("continue", "break"):
                 body.dead = None
-            L.carried = {}
+            L.carried = dict(own_carried)
             for v, init in inits.items():
                 step = body.env.get(v, ("undef",))
                 if step != ("mu", L.id, v):
@@ -1807,3 +1826,68 @@ def borrow(ctx, prop, func_name, args, rule, construct, accept, what, roots=()):
         ctx.undecided(rule, construct, "%s: the %s rule produced no instance for the trusted callee" % (what, prop), None)
     elif not seen:
         ctx.ok(rule, construct, "%s holds in the callee (%d obligations of %s)" % (what, n_ok, prop), None)
+
+
+def _affine(res, t, e, n):
+    """(a, b, c) with t = a*e + b*n + c for the terms e (loop element) and n (a length), else None."""
+    if t == e:
+        return (1, 0, 0)
+    if t == n:
+        return (0, 1, 0)
+    if is_const(t) and isinstance(t[1], int) and not isinstance(t[1], bool):
+        return (0, 0, t[1])
+    if isinstance(t, tuple) and t[:1] == ("binop",) and t[1] in ("Add", "Sub"):
+        x, y = _affine(res, t[2], e, n), _affine(res, t[3], e, n)
+        if x is None or y is None:
+            return None
+        sg = 1 if t[1] == "Add" else -1
+        return tuple(p + sg * q for p, q in zip(x, y))
+    if isinstance(t, tuple) and t[:2] == ("unop", "USub"):
+        x = _affine(res, t[2], e, n)
+        return None if x is None else tuple(-p for p in x)
+    return None
+
+
+def element_view(res, x):
+    """Read ``x`` as "the current element of a traversal of a sequence": returns (sequence term, reversed?, loop id) for
+    ``for x in seq`` as well as for the indexed forms ``for i in range(len(seq)): seq[i]`` / ``seq[len(seq) - 1 - i]``."""
+    if isinstance(x, tuple) and len(x) == 3 and x[0] == "elem":
+        return x[1], False, x[2]
+    if isinstance(x, tuple) and len(x) == 3 and x[0] == "item":
+        S, idx = x[1], x[2]
+        n = ("len", S)
+        for sub in _all_subterms(idx):
+            if isinstance(sub, tuple) and len(sub) == 3 and sub[0] == "elem" and isinstance(sub[1], tuple) and sub[1][:2] == ("pure", "range"):
+                rargs = sub[1][2]
+                if rargs in ((n,), (("const", 0), n)):
+                    co = _affine(res, idx, sub, n)
+                    if co == (1, 0, 0):
+                        return S, False, sub[2]
+                    if co == (-1, 1, -1):
+                        return S, True, sub[2]
+    return None
+
+
+def _all_subterms(t):
+    out, stack = [], [t]
+    while stack:
+        x = stack.pop()
+        if isinstance(x, tuple):
+            out.append(x)
+            stack.extend(x)
+        elif isinstance(x, frozenset):
+            stack.extend(x)
+    return out
+
+
+def as_position(res, t):
+    """A hand-written loop counter (``i = 0`` before the loop, ``i += 1`` as the only update, read before the increment) is
+    the position of the loop's current element: normalise it to ``("idx", seq, L)``."""
+    if isinstance(t, tuple) and len(t) == 3 and t[0] == "mu" and t[1] in res.loops and t[2] in res.loops[t[1]].carried:
+        L = res.loops[t[1]]
+        init, step = L.carried[t[2]]
+        if init == ("const", 0) and step in (("binop", "Add", t, ("const", 1)), ("binop", "Add", ("const", 1), t)):
+            it = L.iter
+            seq = it[1] if isinstance(it, tuple) and it[0] == "enum" else it
+            return ("idx", seq, L.id)
+    return t
